@@ -5,11 +5,47 @@ namespace QbVerif.IpcsLife
 
 theorem halted_nb {s : St} (h : s.halt = true) : s.halt = false → NB s := fun hx => by rw [h] at hx; cases hx
 
-theorem connect_ok {s : St} (h : Core s) (hh : s.halt = false) (hnb : NB s) (K : Nat) :
-    Core (connect s K) ∧ ((connect s K).halt = false → NB (connect s K)) := by
-  unfold connect
+theorem same_pollAdd (s : St) :
+    Same s s.pollAdd.2 ∧ s.pollAdd.2.nconn = s.nconn ∧ s.pollAdd.2.halt = s.halt := by
+  unfold St.pollAdd; split <;> exact ⟨⟨rfl, rfl, rfl, rfl, rfl, rfl⟩, rfl, rfl⟩
+
+theorem same_transportAdd (s : St) (r : Int) :
+    Same s (transportAdd s r).2 ∧ (transportAdd s r).2.nconn = s.nconn ∧ (transportAdd s r).2.halt = s.halt := by
+  have h1 := same_pollAdd s
+  have h2 := same_pollAdd s.pollAdd.2
+  unfold transportAdd
   split
-  · exact ⟨h.same (same_emit s _) rfl, fun _ => hnb⟩
+  · exact ⟨Same.refl s, rfl, rfl⟩
+  · simp only []
+    split
+    · exact h1
+    · split
+      · split
+        · exact ⟨h1.1.trans h2.1, h2.2.1.trans h1.2.1, h2.2.2.trans h1.2.2⟩
+        · exact ⟨h1.1.trans h2.1, h2.2.1.trans h1.2.1, h2.2.2.trans h1.2.2⟩
+      · exact h1
+
+theorem halt_touchSvc_mono (s : St) (h : s.touchSvc.halt = false) : s.halt = false := by
+  unfold St.touchSvc at h; split at h
+  · cases h
+  · exact h
+
+theorem halt_svcUnref_mono (s : St) (h : s.svcUnref.halt = false) : s.halt = false := by
+  simp only [St.svcUnref] at h
+  split at h
+  · exact halt_touchSvc_mono s h
+  · split at h <;> exact halt_touchSvc_mono s h
+
+theorem same_authRefused (s : St) :
+    Same s (authRefused s) ∧ (authRefused s).nconn = s.nconn ∧ ((authRefused s).halt = false → s.halt = false) := by
+  unfold authRefused
+  have h0 : Same s ({ s with svcRc := s.svcRc + 1 } : St) := ⟨rfl, rfl, rfl, rfl, rfl, rfl⟩
+  exact ⟨(h0.trans (same_svcUnref _)).trans (same_emit _ _), by simp,
+    fun hx => halt_svcUnref_mono ({ s with svcRc := s.svcRc + 1 } : St) hx⟩
+
+theorem connectGo_ok {s : St} (h : Core s) (hh : s.halt = false) (hnb : NB s) (K : Nat) (cerr : Int) :
+    Core (connectGo s K cerr) ∧ ((connectGo s K cerr).halt = false → NB (connectGo s K cerr)) := by
+  unfold connectGo
   · generalize hp : (connA s).pop .accept = p
     obtain ⟨hc1, hnb1, hh1, hph1, hl1, hn1⟩ := connAlloc_ok h hnb p hp
     have he := hc1.exec FUEL (.ops (s.nconn + 1) p.1.ops) trivial
@@ -21,8 +57,8 @@ theorem connect_ok {s : St} (h : Core s) (hh : s.halt = false) (hnb : NB s) (K :
     · have h2' : (exec FUEL (p.2.cb .accept (s.nconn + 1) p.1.ret) (.ops (s.nconn + 1) p.1.ops)).halt = false := by
         simpa using h2
       simp only [h2', Bool.false_eq_true, ↓reduceIte]
-      by_cases hret : p.1.ret = 0
-      · have hb : (p.1.ret != 0) = false := by simp [hret]
+      by_cases hret : p.1.ret = 0 ∧ cerr = 0
+      · have hb : (p.1.ret != 0 || cerr != 0) = false := by simp [hret.1, hret.2]
         have hnd : ((exec FUEL (p.2.cb .accept (s.nconn + 1) p.1.ret) (.ops (s.nconn + 1) p.1.ops)).conns
             (s.nconn + 1)).phase ≠ .dead := by rw [hph2]; simp
         simp only [hb, Bool.false_eq_true, ↓reduceIte, touch_eq _ _ (he.1.inv.notFreed hnd), h2']
@@ -52,9 +88,29 @@ theorem connect_ok {s : St} (h : Core s) (hh : s.halt = false) (hnb : NB s) (K :
           simp only [h5', Bool.false_eq_true, ↓reduceIte, touch_eq _ _ hf5]
           have := connEst_ok he5.1 (s.nconn + 1) h5' hb5 K
           exact ⟨this.1, fun _ => this.2⟩
-      · have hb : (p.1.ret != 0) = true := by simp [hret]
+      · have hb : (p.1.ret != 0 || cerr != 0) = true := by
+          by_cases h1 : p.1.ret = 0
+          · have h3 : cerr ≠ 0 := fun hc => hret ⟨h1, hc⟩
+            simp [h1, h3]
+          · simp [h1]
         simp only [hb, ↓reduceIte]
-        have := connRej_ok he.1 (s.nconn + 1) h2' hnb2 hph2 p.1.ret
+        have := connRej_ok he.1 (s.nconn + 1) h2' hnb2 hph2 (if p.1.ret != 0 then p.1.ret else cerr)
         exact ⟨this.1, fun _ => this.2⟩
+
+theorem connect_ok {s : St} (h : Core s) (hh : s.halt = false) (hnb : NB s) (K : Nat) :
+    Core (connect s K) ∧ ((connect s K).halt = false → NB (connect s K)) := by
+  unfold connect
+  split
+  · exact ⟨h.same (same_emit s _) rfl, fun _ => hnb⟩
+  · have h1 := same_pollAdd s
+    simp only []
+    split
+    · have h2 := same_authRefused s.pollAdd.2
+      exact ⟨h.same (h1.1.trans h2.1) (h2.2.1.trans h1.2.1), fun _ i => by
+        rw [(h1.1.trans h2.1).conns]; exact hnb i⟩
+    · have h2 := same_transportAdd s.pollAdd.2 (peekAccept s)
+      have hs := h1.1.trans h2.1
+      exact connectGo_ok (h.same hs (h2.2.1.trans h1.2.1)) (by rw [h2.2.2, h1.2.2]; exact hh)
+        (fun i => by rw [hs.conns]; exact hnb i) K _
 
 end QbVerif.IpcsLife
